@@ -625,6 +625,17 @@ func (w *World) CheckEntities(tx *bbolt.Tx, m *Model) error {
 				return fmt.Errorf("store %s: LoadById(%q): %v", name, id, err)
 			}
 		}
+		// one entity value re-used as the buffer for every load (the "reload into the same struct" idiom): each load
+		// shows that entity's own state, nothing is carried over from the previous one
+		buf := st.GetEntityStrategy().NewEntity()
+		for _, id := range want {
+			if found, err := st.LoadEntity(tx, id, buf); err != nil || !found {
+				return fmt.Errorf("store %s: LoadEntity(%q) into a re-used entity value: found=%v err=%v", name, id, found, err)
+			}
+			if d := diffEnt(buf, m.Ents[name][id]); d != "" {
+				return fmt.Errorf("store %s entity %q loaded into an entity value that held another entity before differs from model: %s", name, id, d)
+			}
+		}
 	}
 	return nil
 }
